@@ -23,6 +23,8 @@ def main():
         if a.ids and sid not in a.ids:
             continue
         meta = json.load(open(os.path.join(d, "meta.json")))
+        if meta.get("superseded"):
+            rows.append((sid, meta["property"], "superseded (see meta.json)", "")); continue
         r = sh(["git", "-C", "/repo", "apply", os.path.join(d, "patch.diff")])
         if r.returncode != 0:
             rows.append((sid, meta["property"], "PATCH DOES NOT APPLY", "")); continue
